@@ -23,7 +23,9 @@ vars == <<objs, live, hist>>
 
 Clip(v, lo, hi) == IF v = NaN THEN NaN ELSE IF v < lo THEN lo ELSE IF v > hi THEN hi ELSE v
 Out(v, lo, hi) == v # NaN /\ (v < lo \/ v > hi)
-Dead == [n |-> 0, mins |-> <<>>, maxs |-> <<>>, defaults |-> <<>>, values |-> <<>>,
+\* (an operator with a parameter, not a constant: TLC evaluates zero-arity constant definitions once and shares the
+\*  value between workers, and concurrent normalisation of a shared record is not thread-safe in TLC 1.8)
+Dead(o) == [n |-> o - o, mins |-> <<>>, maxs |-> <<>>, defaults |-> <<>>, values |-> <<>>,
          hit |-> FALSE, chk |-> FALSE, chkb |-> TRUE, nanok |-> FALSE]
 
 \* constructor: mins, maxs, defaults sequences of length n
@@ -74,7 +76,7 @@ Init == /\ \E n \in 0..MaxN, chk \in BOOLEAN, chkb \in BOOLEAN, nanok \in BOOLEA
                  maxs == [i \in 1..n |-> bp[i][2]]
                  dflt == [i \in 1..n |-> IF dk[i] = NaN THEN NaN ELSE Clip(dk[i], mins[i], maxs[i])]
                  ok == CtorOK(n, mins, maxs, dflt, chk, chkb, nanok)
-             IN /\ objs = [o \in Ids |-> IF o = 1 /\ ok THEN Mk(n, mins, maxs, dflt, chk, chkb, nanok) ELSE Dead]
+             IN /\ objs = [o \in Ids |-> IF o = 1 /\ ok THEN Mk(n, mins, maxs, dflt, chk, chkb, nanok) ELSE Dead(o)]
                 /\ live = IF ok THEN {1} ELSE {}
                 /\ hist = <<[act |-> <<"new", n, <<mins, maxs, dflt>>, <<chk, chkb, nanok>>, IF ok THEN "ok" ELSE "err">>,
                              post |-> objs, live |-> live]>>
